@@ -1059,6 +1059,7 @@ def load(root="/repo", config="default", extra_flags=()):
     try:
         _inline.inline_private_helpers(fb)
         _inline.alias_staging_buffers(fb)
+        _inline.scalarise_aggregates(fb)
     except Broken:
         raise
     return fb
